@@ -49,6 +49,8 @@ cfgs["C15"] = {"functions": RV,
 cfgs["C16"] = {"functions": ["x/aggregate/keeper.(Keeper).OnRecvPacket", "x/aggregate.(IBCMiddleware).OnRecvPacket"]}
 cfgs["C18"] = {"functions": ["x/xibc/core/client/keeper.(Keeper).CreateClient", "x/xibc/core/client/keeper.(Keeper).UpgradeClient", "x/xibc/core/client/keeper.(Keeper).ToggleClient", "x/xibc/core/client/keeper.(Keeper).UpdateClient", "x/xibc/core/client/keeper.(Keeper).HandleCreateClient", "x/xibc/core/client/keeper.(Keeper).HandleUpgradeClient", "x/xibc/core/client/keeper.(Keeper).HandleToggleClient", "x/xibc/core/client/types.UnpackClientState", "x/xibc/core/client/types.UnpackConsensusState"], "impls": [{"iface": "x/xibc/exported.IFACE Header.GetHeight", "impl": "x/xibc/clients/tss-client/types.(Header).GetHeight"}, {"iface": "x/xibc/exported.IFACE Header.GetHeight", "impl": "x/xibc/clients/light-clients/tendermint/types.(Header).GetHeight"}, {"iface": "x/xibc/exported.IFACE Header.GetHeight", "impl": "x/xibc/clients/light-clients/bsc/types.(Header).GetHeight"}, {"iface": "x/xibc/exported.IFACE Header.GetHeight", "impl": "x/xibc/clients/light-clients/eth/types.(Header).GetHeight"}]}
 cfgs["C12"] = {"functions": ["x/aggregate/keeper.(Keeper).SetTokenPair", "x/aggregate/keeper.(Keeper).SetDenomMap", "x/aggregate/keeper.(Keeper).SetERC20Map", "x/aggregate/keeper.(Keeper).deleteDenomMap", "x/aggregate/keeper.(Keeper).deleteERC20Map", "x/aggregate/keeper.(Keeper).deleteTokenPair", "x/aggregate/keeper.(Keeper).IsDenomRegistered", "x/aggregate/keeper.(Keeper).IsERC20Registered", "x/aggregate/keeper.(Keeper).GetERC20Map", "x/aggregate/keeper.(Keeper).GetDenomMap", "x/aggregate/keeper.(Keeper).GetTokenPair", "x/aggregate/keeper.(Keeper).SetDenomsMap", "x/aggregate/keeper.(Keeper).DeleteTokenPair", "x/aggregate/keeper.(Keeper).RegisterCoin", "x/aggregate/keeper.(Keeper).AddCoin", "x/aggregate/keeper.(Keeper).RegisterERC20", "x/aggregate/keeper.(Keeper).ToggleRelay", "x/aggregate/keeper.(Keeper).UpdateTokenPairERC20"], "inventory": [{"name": "aggregate-store-writers", "kind": "kvwriters", "scope": "x/aggregate", "allowed": ["(x/aggregate/keeper.Keeper).SetTokenPair", "(x/aggregate/keeper.Keeper).SetDenomMap", "(x/aggregate/keeper.Keeper).SetERC20Map", "(x/aggregate/keeper.Keeper).deleteDenomMap", "(x/aggregate/keeper.Keeper).deleteERC20Map", "(x/aggregate/keeper.Keeper).deleteTokenPair"], "reason": "the three registry index families are only written through the six accessor functions, each under a whole-view contract"}]}
+cfgs["C13"] = {"functions": ["x/xibc/core/client/keeper.(Keeper).IterateConsensusStates", "x/xibc/clients/light-clients/tendermint/types.IterateProcessedTime", "x/xibc/clients/light-clients/tendermint/types.(ConsensusState).ClientType", "x/xibc/clients/light-clients/bsc/types.(*ConsensusState).ClientType", "x/xibc/clients/light-clients/eth/types.(*ConsensusState).ClientType", "x/xibc/clients/tss-client/types.(ConsensusState).ClientType", "x/xibc/core/packet/keeper.(Keeper).iterateHashes", "x/xibc/core/packet/keeper.(Keeper).IteratePacketSequence", "x/xibc/core/client/keeper.(Keeper).IterateClients"]}
+cfgs["C19"] = {"functions": ["x/xibc/core/host.PacketReceiptKey", "x/xibc/core/host.PacketCommitmentKey", "x/xibc/core/host.PacketAcknowledgementKey", "x/xibc/core/host.NextSequenceSendKey", "x/xibc/core/host.FullConsensusStateKey", "x/xibc/core/host.ConsensusStateKey", "x/xibc/core/packet/keeper.(Keeper).iterateHashes", "x/xibc/core/packet/keeper.(Keeper).IteratePacketSequence", "x/xibc/core/client/keeper.(Keeper).IterateClients", "x/xibc/core/client/keeper.(Keeper).IterateConsensusStates", "x/xibc/clients/light-clients/tendermint/types.IterateProcessedTime", "x/xibc/clients/light-clients/bsc/types.IterateConsensusStateAscending", "x/xibc/clients/light-clients/eth/types.IterateConsensusStateAscending"], "bounded": [{"name": "abi-round-trip", "pkg": "./x/xibc/core/packet/types", "file": "abi_roundtrip_test.go.txt", "run": "TestZZBoundedABIRoundTrip", "bound": "exhaustive over strings S (quick 4, thorough 9 values incl. empty, ASCII, 2/3/4-byte UTF-8, lengths 31/32/33, a value with '/'), byte strings B (quick 3, thorough 6 incl. 0x00, 0xff, lengths 31/32/33) and uint64 U (quick {0,1,2^64-1}, thorough + {2^32,2^63}): Packet over S x S x U x B x B x diagonal, Acknowledgement over U x B x S x S, TransferData, CallData; checks decode(encode(v)) == v, encode(decode(bytes)) == bytes and pairwise distinct packet commitments"}]}
 for k, v in cfgs.items():
     v["id"] = k
     # preserve hand-edited extra keys
